@@ -26,8 +26,9 @@ Theorem C09_primary_order : forall s,
 Proof. exact sorter_primary_order. Qed.
 Print Assumptions C09_primary_order.
 
-(** the value order is a total preorder on the property's domain (integers
-    that meet floats within +-2^53), for ALL triples *)
+(** the value order is a total preorder on the property's domain
+    ([small_ints]: any integer, any well-formed double; an integer is compared
+    with a double exactly), for ALL triples *)
 Theorem C09_total_order : forall a b c,
   small_ints a = true -> small_ints b = true -> small_ints c = true ->
   vcmp a a = Eq /\
